@@ -854,7 +854,7 @@ PROPS = {
              "exhaustive": "sniff-exhaustive", "nontrivial": sniff_nontrivial, "distribution": sniff_dist},
             {"name": "autocmp", "quick": 600, "thorough": 30000, "head": 4, "unit": 1, "batch": 5000,
              "nontrivial": lambda r: len(r["input"].split()) > 6 or r["input"].split()[-1] in ("1", "2", "3", "5", "7"),
-             "distribution": lambda rs: {"cases": len(rs), "write_buffering_io": sum(r["input"].split()[1] == "1" for r in rs),
+             "distribution": lambda rs: {"cases": len(rs), "write_buffering_io": sum(r["input"].split()[1] in ("1", "3") for r in rs), "initialising_reader": sum(r["input"].split()[1] in ("2", "3") for r in rs),
                  "upgrade_requests": sum(r["input"].split()[2] == "1" for r in rs),
                  "http2_scripts": sum("ref=h2" in r["obs"] for r in rs), "one_byte_at_a_time": sum(r["input"].split()[5:] == ["1"] for r in rs),
                  "answers_identical": sum("same=1" in r["obs"] for r in rs)}},
